@@ -81,9 +81,11 @@ class ListProxy(list, ContainerValueMixin):
         index: Union[int, slice],  # type: ignore[override]
         item: Union[Any, Iterable],
     ) -> None:
-        if isinstance(index, slice) and isinstance(item, (list, tuple)):
+        if isinstance(index, slice):
+            # any iterable, as for the builtin list (a non-iterable raises TypeError here)
             super().__setitem__(index, [self._validate(i) for i in item])
-        elif isinstance(index, int):
+        else:
+            # an int or any object implementing __index__
             super().__setitem__(index, self._validate(item))
 
     def _validate(self, value: Any) -> Any:
